@@ -16,6 +16,11 @@
  *  L <id> <level> <inputhex> <inchunk> <outchunk>       legacy ZBUFF_* round trip  -> <id> OK <framehex> <regenhex>
  *  K <id> <params> <inputhex> <segments>                buffer-less compressBegin/Continue/End, segments = n,n,... (copied to separate
  *                                                       allocations when prefixed by '!')  -> <id> OK <framehex>
+ *  W <id> <params> <arenasize> <inputhex> <segs>          buffer-less compression over explicit places of one arena (round buffers,
+ *      overlapping or repeated places): segs = off:len,...; for each segment the next len input bytes are copied to arena+off and
+ *      handed to ZSTD_compressContinue (the last one to ZSTD_compressEnd)
+ *      -> <id> OK <framehex> base:dictBase:dictLimit:lowLimit:nextSrc;... <blockSizeMax>:<1<<windowLog>   (match-state window after
+ *         compressBegin and after every call; addresses relative to the arena)
  */
 #define ZSTD_STATIC_LINKING_ONLY
 #define ZBUFF_DISABLE_DEPRECATE_WARNINGS
@@ -263,6 +268,46 @@ fin:
     ZSTD_freeCCtx(c); free(in); free(cbuf);
 }
 
+static size_t w_rec(char* rec, size_t rl, const ZSTD_CCtx* c, const unsigned char* arena) {
+    const ZSTD_window_t* w = &c->blockState.matchState.window;
+    return rl + (size_t)sprintf(rec + rl, "%ld:%ld:%u:%u:%ld;", (long)(w->base - arena), (long)(w->dictBase - arena),
+                                (unsigned)w->dictLimit, (unsigned)w->lowLimit, (long)(w->nextSrc - arena));
+}
+static void cmd_W(char** t) {
+    const char* id = t[1]; size_t asz = (size_t)strtoull(t[3], NULL, 10); size_t n; unsigned char* in = unhex(t[4], &n);
+    unsigned char* arena = (unsigned char*)calloc(asz + 64, 1);
+    size_t cap = ZSTD_compressBound(n) + 4096 + 64 * 1024 + n, cpos = 0, ipos = 0, r, rl = 0, rcap = 1 << 16;
+    unsigned char* cbuf = (unsigned char*)malloc(cap); ZSTD_CCtx* c = ZSTD_createCCtx(); char* rec = (char*)malloc(rcap);
+    const char* p = t[5]; size_t nseg = 0, k = 0; const char* q;
+    for (q = p; *q; q++) if (*q == ':') nseg++;
+    r = apply_cparams(c, t[2]);
+    if (!ZSTD_isError(r)) { int lvl = 3; ZSTD_CCtx_getParameter(c, ZSTD_c_compressionLevel, &lvl);
+        {   ZSTD_parameters prm = ZSTD_getParams(lvl, 0, 0); int wl = 0, ck = 0;
+            ZSTD_CCtx_getParameter(c, ZSTD_c_windowLog, &wl); ZSTD_CCtx_getParameter(c, ZSTD_c_checksumFlag, &ck);
+            if (wl) prm.cParams.windowLog = (unsigned)wl;
+            prm.fParams.checksumFlag = ck; prm.fParams.contentSizeFlag = 0;
+            r = ZSTD_compressBegin_advanced(c, NULL, 0, prm, ZSTD_CONTENTSIZE_UNKNOWN); } }
+    rec[0] = 0;
+    if (!ZSTD_isError(r)) rl = w_rec(rec, rl, c, arena);
+    while (!ZSTD_isError(r) && *p) {
+        size_t off = (size_t)strtoull(p, (char**)&p, 10), len;
+        if (*p != ':') break;
+        p++; len = (size_t)strtoull(p, (char**)&p, 10); if (*p == ',') p++;
+        if (len > n - ipos) len = n - ipos;
+        if (off + len > asz) { r = (size_t)-ZSTD_error_GENERIC; break; }
+        memcpy(arena + off, in + ipos, len); ipos += len; k++;
+        if (k == nseg) r = ZSTD_compressEnd(c, cbuf + cpos, cap - cpos, arena + off, len);
+        else r = ZSTD_compressContinue(c, cbuf + cpos, cap - cpos, arena + off, len);
+        if (!ZSTD_isError(r)) cpos += r;
+        if (rl + 200 > rcap) { rcap *= 2; rec = (char*)realloc(rec, rcap); }
+        if (!ZSTD_isError(r)) rl = w_rec(rec, rl, c, arena);
+    }
+    if (ZSTD_isError(r)) perr(id, r);
+    else { printf("%s OK ", id); puthex(cbuf, cpos);
+           printf(" %s %lu:%lu\n", rl ? rec : "-", (unsigned long)c->blockSize, (unsigned long)1 << c->appliedParams.cParams.windowLog); }
+    ZSTD_freeCCtx(c); free(in); free(cbuf); free(arena); free(rec);
+}
+
 int main(void) {
     char* line = NULL; size_t lcap = 0; ssize_t len;
     while ((len = getline(&line, &lcap, stdin)) > 0) {
@@ -273,6 +318,7 @@ int main(void) {
         else if (t[0][0] == 'Y' && nt >= 5) cmd_Y(t, nt);
         else if (t[0][0] == 'L' && nt >= 6) cmd_L(t);
         else if (t[0][0] == 'K' && nt >= 5) cmd_K(t);
+        else if (t[0][0] == 'W' && nt >= 6) cmd_W(t);
         else printf("? BADCMD\n");
         fflush(stdout);
     }
